@@ -87,7 +87,7 @@ SVC = {
     "FABNetv6Ext": (1, 3, 1, ("comp",), False),
     "PortMirror": (1, 1, 1, ("comp",), True),
 }
-IMPLICIT_SERVICE_TYPES = {"OVS", "P4", "VLAN"}
+IMPLICIT_SERVICE_TYPES = {"OVS", "P4", "VLAN", "MPLS"}      # (MPLS: a facility's own service of non-default type)
 
 A_TYPE = "urn:fabric:xacml:attributes:resource-type"
 A_CPU = "urn:fabric:xacml:attributes:resource-cpu"
@@ -196,7 +196,9 @@ def _case(draw):
     nsites = draw(st.sampled_from([1, 2, 2, 2, 3, 3]))
     nodes = draw(st.lists(_node(nsites), min_size=1, max_size=5))
     facs = draw(st.lists(st.fixed_dictionaries({"site": st.integers(0, 2),
-                                                "bw": st.one_of(st.none(), st.sampled_from([1, 10, 100]))}),
+                                                "bw": st.one_of(st.none(), st.sampled_from([1, 10, 100])),
+                                                # (the facility's own service is VLAN by default; any type is legal)
+                                                "nstype": st.sampled_from([None, None, None, "MPLS"])}),
                          min_size=0, max_size=draw(st.sampled_from([0, 1, 1, 2, 3]))))
     svcs = draw(st.lists(_svc(), min_size=draw(st.sampled_from([0, 1, 1, 2, 2, 2, 3, 3])), max_size=5))
     nu, ns = len(nodes) + len(facs), len(svcs)
@@ -237,7 +239,7 @@ def _resolve(case):
         nodes.append(rec)
     for i, fc in enumerate(case.get("facs") or []):
         site = SITES[int(fc.get("site", 0)) % len(SITES)]
-        facs.append({"name": f"fac{i}", "site": site, "bw": fc.get("bw")})
+        facs.append({"name": f"fac{i}", "site": site, "bw": fc.get("bw"), "nstype": fc.get("nstype")})
         ports.append({"key": ("f", i, None, f"fac{i}-int"), "unit": ("f", i), "site": site, "kind": "fac",
                       "ded": False})
 
@@ -358,6 +360,8 @@ def _build(plan, seq):
         elif kind == "f":
             fc = plan["facs"][k]
             kw = {"capacities": Capacities(bw=fc["bw"])} if fc["bw"] else {}
+            if fc.get("nstype"):
+                kw["nstype"] = ServiceType[fc["nstype"]]
             f = t.add_facility(name=fc["name"], site=fc["site"], **kw)
             ifaces[("f", k, None, f"{fc['name']}-int")] = f.interface_list[0]
         else:
